@@ -173,7 +173,7 @@ inductive VRes where
   | hang
   deriving DecidableEq
 
-/-- `VerifyProof` over a proof database `db` (hash ↦ node blob). -/
+/-- the loop of `VerifyProof` over a proof database `db` (hash ↦ node blob). -/
 def verify (db : Bytes → Option Bytes) : Nat → Bytes → List Nib → VRes
   | 0, _, _ => .hang
   | f + 1, wantHash, key =>
@@ -189,6 +189,14 @@ def verify (db : Bytes → Option Bytes) : Nat → Bytes → List Nib → VRes
         | .value v => .value v
         | .panic => .panic
         | .hashref h keyrest => verify db f h keyrest
+
+/-- `emptyRoot`: the hash of the RLP of the empty string (`0x80`). -/
+def emptyRoot (H : Bytes → Bytes) : Bytes := H [0x80]
+
+/-- `VerifyProof` (entry): the empty root commits to no content — every key is absent, no node is needed
+    (the `rootHash == emptyRoot` shortcut of proof.go); otherwise the loop. -/
+def verifyProof (H : Bytes → Bytes) (db : Bytes → Option Bytes) (fuel : Nat) (rootHash : Bytes) (key : List Nib) : VRes :=
+  if rootHash = emptyRoot H then .absent else verify db fuel rootHash key
 
 /-- the nodes `Prove` collects on the path of `key`; `none` = Go panic (value node reached with key left). -/
 def provePath : Node → List Nib → Option (List Node)
